@@ -14,6 +14,18 @@ done
 go tool covdata textfmt -i=$D/cov -o $D/cov_all.txt 2>&1 | tail -3
 grep -E "^mode:|^github.com/pdok/texel/" $D/cov_all.txt > $D/cov.txt
 (cd /repo && GOFLAGS=-mod=readonly go tool cover -func=$D/cov.txt) | grep -v "verif_" > /verif/coverage/coverage_$T.txt
+python3 - $D/cov.txt > /verif/coverage/uncovered_$T.txt <<'PY'
+import sys, collections
+hit = collections.defaultdict(int)
+for l in open(sys.argv[1]):
+    if l.startswith("mode:"):
+        continue
+    blk, n, c = l.rsplit(" ", 2)
+    hit[blk] += int(c)
+for blk in sorted(hit, key=lambda b: (b.split(":")[0], float(b.split(":")[1].split(",")[0]))):
+    if hit[blk] == 0 and "verif_" not in blk:
+        print(blk)
+PY
 tail -1 /verif/coverage/coverage_$T.txt
 unset VERIF_COVER
 rm -rf $D /verif/.build/drv /verif/.build/drv_race /verif/.build/texel
